@@ -133,7 +133,7 @@ def run(ctx):
         """prefix ; reset ; [snap] ; ref ; fin   versus   fresh: settings(if kept) ; ref ; fin"""
         a = Script(list(settings)); a.extend(Script(list(prefix_ops)))
         a.emit(reset_tok); a.emit('snap')
-        a.extend(ref_script); a.emit('fin'); a.emit('snap')
+        a.extend(ref_script); a.emit('dir'); a.emit('fin'); a.emit('snap')
         # the settings in force after the final reset: last cl / vl / ml values not wiped by a reset with set_defaults
         eff = {}
         for t in list(settings) + list(prefix_ops) + [reset_tok]:
@@ -142,7 +142,7 @@ def run(ctx):
             elif f[0] == 'rs' and f[1] == '1': eff = {}
             elif f[0] == 'clr': eff = {}
         b = Script(list(eff.values())); b.emit('snap')
-        b.extend(ref_script); b.emit('fin')
+        b.extend(ref_script); b.emit('dir'); b.emit('fin')
         ca = Case(klass, a.ops, model, cfg, dict(meta or {}, reset=reset_tok))
         cb = Case(klass + ':fresh', b.ops, model, cfg)
         cases.append(ca); cases.append(cb)
@@ -330,6 +330,10 @@ def run(ctx):
     add_pair('pool_pages_back_growth', many_vtables(120).ops, 'rs:0:0', big_front(15000), [], True)
     add_pair('pool_pages_back_growth', many_vtables(120).ops, 'rs:0:1', many_vtables(90), [], True)
 
+    for nb in (3000, 10000, 100000):
+        for rv in RESET_VARIANTS:
+            for rr_ in (refs[0][1], refs[3][1]):
+                add_pair('direct_buffer_after_big_build', big_front(nb).ops, rv, rr_, [], True, cfg='0:0' if nb != 10000 else '1:1', meta={'first_build_bytes': nb})
     # ---------------------------------------------------------------- F7: an allocator that really honours reduce_buffers
     for name, bs, model in rich[:2]:
         for cut in range(2, len(bs.ops), 3):
@@ -580,10 +584,16 @@ def run(ctx):
         if len(ta) < 2 or not tb: continue
         fa, fb = ta[-2], tb[-1]
         nbytes += 1
+        # flatcc_builder_get_direct_buffer right before finalize: same NULL-ness / size as on the fresh builder, bytes equal to the copy
+        if len(ta) >= 3 and len(tb) >= 2 and ta[-3].startswith('D:') and tb[-2].startswith('D:'):
+            da, db = ta[-3].replace('D:0:ok', 'D:null'), tb[-2].replace('D:0:ok', 'D:null')     # an empty buffer has no address to compare
+            if da != db or da.endswith(':diff'):
+                ctx.violation('direct-buffer-differs-after-reset', 'after %s (%s) flatcc_builder_get_direct_buffer gives %s for the reference build, on a fresh builder %s' % (
+                                  ca.klass, ca.meta.get('reset'), da, db), {'harness_line': ca.impl_line()[:6000], 'fresh_line': cb.impl_line()[:6000]})
         if ca.klass == 'table_limit':
             # same outcome of every call of the reference build (which call is refused) as on the fresh builder
             na = len(tb) - 1 - next(i for i, t in enumerate(tb) if t.startswith('{'))      # tokens after the fresh builder's snapshot
-            ra, rb = ta[-2 - (na - 1):-2], tb[-1 - (na - 1):-1]
+            ra, rb = [x for x in ta[-2 - (na - 1):-2] if not x.startswith('D:')], [x for x in tb[-1 - (na - 1):-1] if not x.startswith('D:')]   # the direct buffer has its own oracle
             if ra != rb:
                 j = next((i for i, (x, y) in enumerate(zip(ra, rb)) if x != y), 0)
                 ctx.violation('table-limit-depends-on-history', 'after %s (%s) call %d of the reference table build returns %s, on a fresh builder %s: the 64k table limit depends on earlier activity' % (
